@@ -448,6 +448,10 @@ pub struct PmDecoded {
 	pub min_zoom: u8,
 	pub max_zoom: u8,
 	pub counts: (u64, u64, u64),
+	/// recomputed from the directories: addressed tiles, tile entries, distinct (offset, length) contents
+	pub actual_counts: (u64, u64, u64),
+	/// header bounds [min_lon, min_lat, max_lon, max_lat] in 1e-7 degrees
+	pub bounds_e7: [i32; 4],
 	pub meta: Vec<u8>,
 	pub tiles: TileMap,
 	pub leaf_levels: usize,
@@ -477,13 +481,17 @@ pub fn pm_decode(bytes: &[u8]) -> Result<PmDecoded, String> {
 	let data = slice(bytes, data_o, data_l, "tile data")?;
 	let mut tiles = TileMap::new();
 	let mut max_depth = 0;
-	fn walk(dir: &[u8], leaves: &[u8], data: &[u8], ic: u8, depth: usize, tiles: &mut TileMap, max_depth: &mut usize) -> Result<(), String> {
+	let mut stats: (u64, u64, std::collections::BTreeSet<(u64, u64)>) = (0, 0, Default::default());
+	fn walk(dir: &[u8], leaves: &[u8], data: &[u8], ic: u8, depth: usize, tiles: &mut TileMap, max_depth: &mut usize, stats: &mut (u64, u64, std::collections::BTreeSet<(u64, u64)>)) -> Result<(), String> {
 		if depth > 3 {
 			return Err("more than 3 leaf levels".into());
 		}
 		*max_depth = (*max_depth).max(depth);
 		for e in pm_parse_dir(dir)? {
 			if e.run > 0 {
+				stats.0 += e.run as u64;
+				stats.1 += 1;
+				stats.2.insert((e.offset, e.length));
 				let d = slice(data, e.offset, e.length, "tile")?;
 				for i in 0..e.run as u64 {
 					let k = pm_id_to_zxy(e.id + i)?;
@@ -493,13 +501,15 @@ pub fn pm_decode(bytes: &[u8]) -> Result<PmDecoded, String> {
 				}
 			} else {
 				let l = pm_internal_decode(ic, slice(leaves, e.offset, e.length, "leaf")?)?;
-				walk(&l, leaves, data, ic, depth + 1, tiles, max_depth)?;
+				walk(&l, leaves, data, ic, depth + 1, tiles, max_depth, stats)?;
 			}
 		}
 		Ok(())
 	}
-	walk(&root, leaves, data, ic, 0, &mut tiles, &mut max_depth)?;
-	Ok(PmDecoded { tile_type: tt, tile_compression: tc, internal_compression: ic, clustered, min_zoom: minz, max_zoom: maxz, counts, meta, tiles, leaf_levels: max_depth })
+	walk(&root, leaves, data, ic, 0, &mut tiles, &mut max_depth, &mut stats)?;
+	let le_i32 = |o: usize| i32::from_le_bytes(bytes[o..o + 4].try_into().unwrap());
+	let bounds_e7 = [le_i32(102), le_i32(106), le_i32(110), le_i32(114)];
+	Ok(PmDecoded { tile_type: tt, tile_compression: tc, internal_compression: ic, clustered, min_zoom: minz, max_zoom: maxz, counts, actual_counts: (stats.0, stats.1, stats.2.len() as u64), bounds_e7, meta, tiles, leaf_levels: max_depth })
 }
 
 #[derive(Debug, Clone, Copy, PartialEq, Eq, serde::Serialize, serde::Deserialize)]
